@@ -358,9 +358,12 @@ def model_requests(case, obs):
     reqs = [{"m": "C09.replay", "segments": segs}]
     if "prog" in obs:
         evs = []
+        table = []
         for st in obs["steps"]:
             if "vm" in st and "event" in st:
-                evs.append({"ev": _model_event(st["event"]), "choices": [c[1] for c in st.get("choices", [])], "clock": st.get("clock", 0)})
+                evs.append({"ev": cv.to_refs(_model_event(st["event"]), table), "choices": [c[1] for c in st.get("choices", [])], "clock": st.get("clock", 0)})
+                d = _norm_digest(st["vm"])
+                cv.digest_uid_order(d, table)
         reqs.append({"m": "C09.run", "prog": obs["prog"], "events": evs, "fuel": 300})
     return reqs
 
@@ -372,6 +375,16 @@ def _multiset(entries):
 def _norm_digest(d):
     return {"out": d["out"], "insts": [i[:5] + [sorted(i[5])] + i[6:] for i in d["insts"]], "index": sorted(d["index"], key=lambda e: json.dumps(e)),
             "actions": d["actions"], "queue": d["queue"], "gctx": d["gctx"]}
+
+
+def _canon_digests(ds):
+    table = []
+    out = []
+    for d in ds:
+        cv.digest_uid_order(d, table)
+        idx = {u: f"#{n}" for n, u in enumerate(table)}
+        out.append(json.loads(cv.UID_RE.sub(lambda m: idx.get(m.group(0), m.group(0)), json.dumps(d))))
+    return out
 
 
 def compare_vm(case, obs, res):
@@ -403,7 +416,7 @@ def compare_vm(case, obs, res):
             return f"event {n} {st['item']}: a guard of the index layer failed inside CoreVM"
         real.append(_norm_digest(st["vm"]))
         model.append(_norm_digest(m))
-        rc, mc = cv.canon_uids(real), cv.canon_uids(model)
+        rc, mc = _canon_digests(real), _canon_digests(model)
         if rc[-1] != mc[-1]:
             diffs = [k for k in rc[-1] if rc[-1][k] != mc[-1][k]]
             k = diffs[0]
